@@ -62,13 +62,40 @@ func compareVideo(sig, who string, pub *published, flat []flatNal, recv [][]byte
 		return 0, pbt.V(sig+"/video/more-units-than-published", "%s: %d NAL units recovered, %d published (after removing AUD / parameter sets%s)", who, len(recv), len(flat), seiNote(sig))
 	}
 	off = len(flat) - len(recv)
-	for i, r := range recv {
+	// compared from the end backwards, so that the report names the difference closest to the end (after a lost
+	// unit everything behind it still lines up)
+	for i := len(recv) - 1; i >= 0; i-- {
+		r := recv[i]
 		want := flat[off+i]
 		if !bytes.Equal(r, want.data) {
 			fr := pub.video[want.frame]
 			return off, pbt.V(sig+"/video/nal-mismatch",
-				"%s: recovered NAL unit #%d of %d (aligned at the end with the %d published units, i.e. published unit #%d, frame at item %d ts %d) differs: got %d bytes (% x..), want %d bytes (% x..), first difference at byte %d; %s",
-				who, i, len(recv), len(flat), off+i, fr.item, fr.ts, len(r), head(r, 12), len(want.data), head(want.data, 12), firstDiff(r, want.data), locate(flat, r))
+				"%s: %d NAL units recovered, %d published; the last %d agree, but counting from the end recovered unit #%d should be published unit #%d (frame at item %d, ts %d): got %d bytes (% x..), want %d bytes (% x..), first difference at byte %d; %s",
+				who, len(recv), len(flat), len(recv)-1-i, i, off+i, fr.item, fr.ts, len(r), head(r, 12), len(want.data), head(want.data, 12), firstDiff(r, want.data), locate(flat, r))
+		}
+	}
+	return off, nil
+}
+
+// compareAudio is compareVideo for audio frames.
+func compareAudio(sig, who string, pub *published, recv [][]byte) (off int, v *pbt.Violation) {
+	if len(recv) > len(pub.audio) {
+		return 0, pbt.V(sig+"/audio/more-frames-than-published", "%s: %d audio frames recovered, %d published", who, len(recv), len(pub.audio))
+	}
+	off = len(pub.audio) - len(recv)
+	for i := len(recv) - 1; i >= 0; i-- {
+		r := recv[i]
+		want := pub.audio[off+i]
+		if !bytes.Equal(r, want.data) {
+			where := "it equals no published frame"
+			for x, a := range pub.audio {
+				if bytes.Equal(a.data, r) {
+					where = fmt.Sprintf("it equals published audio frame #%d", x)
+					break
+				}
+			}
+			return off, pbt.V(sig+"/audio/frame-mismatch", "%s: %d audio frames recovered, %d published; the last %d agree, but counting from the end recovered frame #%d should be published frame #%d (item %d, ts %d): got %d bytes (% x..), want %d bytes (% x..), first difference at byte %d; %s",
+				who, len(recv), len(pub.audio), len(recv)-1-i, i, off+i, want.item, want.ts, len(r), head(r, 12), len(want.data), head(want.data, 12), firstDiff(r, want.data), where)
 		}
 	}
 	return off, nil
@@ -243,26 +270,15 @@ func checkTs(who, leg string, body []byte, pub *published) *pbt.Violation {
 				n++
 			}
 		}
-		if len(recv) > len(pub.audio) {
-			return pbt.V(leg+"/audio/more-frames-than-published", "%s: %d audio frames recovered, %d published", who, len(recv), len(pub.audio))
+		off, v := compareAudio(leg, who, pub, recv)
+		if v != nil {
+			return v
 		}
-		off := len(pub.audio) - len(recv)
 		haveConst := false
 		var konst uint64
 		var konstFrom int
-		for i, r := range recv {
+		for i := range recv {
 			want := pub.audio[off+i]
-			if !bytes.Equal(r, want.data) {
-				where := "it equals no published frame"
-				for x, a := range pub.audio {
-					if bytes.Equal(a.data, r) {
-						where = fmt.Sprintf("it equals published audio frame #%d", x)
-						break
-					}
-				}
-				return pbt.V(leg+"/audio/frame-mismatch", "%s: recovered audio frame #%d of %d (aligned at the end with the %d published frames, i.e. published frame #%d at item %d ts %d) differs: got %d bytes (% x..), want %d bytes (% x..), first difference at byte %d; %s",
-					who, i, len(recv), len(pub.audio), off+i, want.item, want.ts, len(r), head(r, 12), len(want.data), head(want.data, 12), firstDiff(r, want.data), where)
-			}
 			if refs[i].first {
 				pes := pess[refs[i].pes]
 				k := (pes.PTS + mod33 - (90*uint64(want.ts))%mod33) % mod33
@@ -408,23 +424,16 @@ func checkRtsp(who string, sdp []byte, frames []rtspref.Frame, pub *published) *
 		if err != nil {
 			return pbt.V("rtsp/audio/depacketize", "%s: after %d frames: %v", who, len(units), err)
 		}
-		if len(units) > len(pub.audio) {
-			return pbt.V("rtsp/audio/more-frames-than-published", "%s: %d audio frames recovered, %d published", who, len(units), len(pub.audio))
+		var recv [][]byte
+		for _, u := range units {
+			recv = append(recv, u.Data)
 		}
-		off := len(pub.audio) - len(units)
+		off, v := compareAudio("rtsp", who, pub, recv)
+		if v != nil {
+			return v
+		}
 		for i, u := range units {
 			want := pub.audio[off+i]
-			if !bytes.Equal(u.Data, want.data) {
-				where := "it equals no published frame"
-				for x, a := range pub.audio {
-					if bytes.Equal(a.data, u.Data) {
-						where = fmt.Sprintf("it equals published audio frame #%d", x)
-						break
-					}
-				}
-				return pbt.V("rtsp/audio/frame-mismatch", "%s: recovered audio frame #%d of %d (aligned at the end with the %d published frames, i.e. published frame #%d at item %d ts %d) differs: got %d bytes (% x..), want %d bytes (% x..), first difference at byte %d; %s",
-					who, i, len(units), len(pub.audio), off+i, want.item, want.ts, len(u.Data), head(u.Data, 12), len(want.data), head(want.data, 12), firstDiff(u.Data, want.data), where)
-			}
 			w := rtpWant(want.ts, at.clock)
 			if !rtpref.TSWithinOneTick(u.TS, w) {
 				return pbt.V("rtsp/audio/rtp-timestamp", "%s: audio frame published at item %d (ts %d ms): RTP timestamp %d, want %d (= ts*%d/1000 mod 2^32) within one tick (difference %d)",
